@@ -585,7 +585,13 @@ func (r *c04Run) extract(in rows) {
 	if cs.Flag {
 		strand = "\t-" // minus-strand feature: the concatenated blocks are reverse-complemented as a whole
 	}
-	if !r.write("coords.txt", strings.Join(starts, ",")+"\t"+strings.Join(ends, ",")+"\tx"+strand+"\n") {
+	lines := strings.Join(starts, ",") + "\t" + strings.Join(ends, ",") + "\tx" + strand + "\n"
+	if cs.Build == "after-minus" && !cs.Flag {
+		// the judged feature (three columns: no strand given, so the forward one) follows a feature of the minus
+		// strand and precedes one whose strand is given as +
+		lines = "0\t1\tw\t-\n" + lines + "0\t1\tv\t+\n"
+	}
+	if !r.write("coords.txt", lines) {
 		return
 	}
 	os.Remove(r.path("x.fa"))
@@ -701,6 +707,9 @@ func c04RunCLIAll(maxList int) func(c *mc.Ctx, seqs []string) {
 			for s := -1; s <= L+1; s++ {
 				for e := -1; e <= L+1; e++ {
 					c04Check(c, c04Case{Op: "cli-extract", Seqs: seqs, Sites: []int{s, e}, Ref: ref})
+					if ref == "" && 0 <= s && s < e && e <= L {
+						c04Check(c, c04Case{Op: "cli-extract", Seqs: seqs, Sites: []int{s, e}, Build: "after-minus"})
+					}
 					if 0 <= s && s < e && e <= L {
 						c04Check(c, c04Case{Op: "cli-extract", Seqs: seqs, Sites: []int{s, e}, Ref: ref, Flag: true})
 					}
